@@ -163,3 +163,16 @@ class AuthenticationError(AuthenticationException):
     """Raised for unexpected errors during the authentication process."""
 
     pass
+
+
+####################################################################
+#
+def response_text(exc: BaseException | str) -> str:
+    """
+    The text of an exception as it may be put in a tagged NO/BAD (or BYE)
+    response. Error texts frequently echo what the client sent us (a mailbox
+    name, the part of the command that would not parse) and that may contain
+    CR and LF: a response is exactly one line.
+    """
+    return str(exc).replace("\r", " ").replace("\n", " ")
+
